@@ -16,7 +16,7 @@ ENCODED = [
 ]
 STUBS = ["log_likelihood_alleles_cached -> ln L(sorted alleles), one positive real per unordered genotype (the read model is C04/C09)",
          "compound_step harness: np.random.shuffle -> solver-chosen permutation; random_choice -> solver-chosen index; gibbs/mh_options -> recorders"]
-ASSUMES = ["L(g) > 0", "frequencies symbolic > 0 summing to 1 or flat; F symbolic in (0,1) or exactly 0",
+ASSUMES = ["L(g) > 0", "frequencies symbolic > 0 summing to 1, flat, or with the last entry exactly 0; F symbolic in (0,1) or exactly 0",
            "target: J(g) = L(g) * oracle (Dirichlet-)multinomial prior, i.e. the distribution call-exact enumerates (C03 ties exact.py to the same oracle)"]
 BOUNDS = {"quick": "ploidy 2..3 x 2..3 alleles, all genotypes, all copies, all target alleles",
           "thorough": "ploidy 2..4 x 2..4 alleles, plus ploidy 6 x 2 alleles"}
@@ -28,7 +28,7 @@ def configs(tier):
     shapes = [(2, 2), (2, 3), (3, 2), (3, 3)] if tier == "quick" else [(2, 2), (2, 3), (3, 2), (3, 3), (2, 4), (4, 2), (4, 3), (3, 4), (4, 4), (6, 2)]
     for P, A in shapes:
         for inbred in (True, False):
-            for freqs in ("flat", "sym"):
+            for freqs in ("flat", "sym", "zero"):
                 for step in ("gibbs", "mh"):
                     genos = M.genotypes(A, P)
                     for lo in range(0, len(genos), 8):
@@ -87,6 +87,8 @@ def run_config(c, col):
             for k in range(P):
                 if k > 0 and g[k] == g[k - 1]:
                     continue
+                if c["freqs"] == "zero" and (A - 1) in (g[:k] + g[k + 1:]):
+                    continue  # the other copies already carry a zero-prior allele: the conditional is undefined
 
                 def kernel(ga, k, Fv, farr):
                     ga = rnp.array(ga)
@@ -103,14 +105,17 @@ def run_config(c, col):
                     if c["freqs"] == "flat":
                         fz = [z3.RealVal(1) / A] * A
                         farr = None
-                    else:
+                    elif c["freqs"] == "sym":
                         fz = E.simplex(ctx, "f", A)
                         farr = E.real_array(fz)
+                    else:  # the last allele has prior frequency exactly zero
+                        fz = (E.simplex(ctx, "f", A - 1) if A > 1 else []) + [0]
+                        farr = E.real_array([t if z3.is_expr(t) else 0.0 for t in fz])
                     pr, restored, llks = kernel(g, k, Fv, farr)
                     back = {}
                     if c["step"] == "mh":
                         for a in range(A):
-                            if a != g[k]:
+                            if a != g[k] and not (c["freqs"] == "zero" and (a == A - 1 or g[k] == A - 1)):
                                 y = list(g)
                                 y[k] = a
                                 back[a] = kernel(y, k, Fv, farr)[0]
@@ -262,9 +267,14 @@ def replay(v):
     if c["freqs"] == "flat":
         f = [1.0 / A] * A
         farr = None
-    else:
+    elif c["freqs"] == "sym":
         f = [float(m.get("f%d" % i, 1.0 / A)) for i in range(A - 1)]
         f.append(1 - sum(f))
+        farr = rnp.array(f)
+    else:
+        f = [float(m.get("f%d" % i, 1.0 / (A - 1))) for i in range(A - 2)]
+        f.append(1 - sum(f))
+        f.append(0.0)
         farr = rnp.array(f)
 
     def Lmap(g):
